@@ -2,21 +2,30 @@
  *
  * One case = one configuration (role, version, suite, server certificate, key-exchange group incl.
  * HelloRetryRequest, client authentication, resumption mode, extended master secret, DTLS cookie,
- * payload plan).  The MatrixSSL endpoint (the sanitizer build of /repo) and an OpenSSL 3 endpoint run
- * in one forked child and talk over in-memory queues (byte stream for TLS, datagram queue for DTLS).
+ * payload plan, read-chunk size).  The MatrixSSL endpoint (the sanitizer build of /repo) and an
+ * OpenSSL 3 endpoint run in one forked child and talk over in-memory queues (byte stream for TLS,
+ * datagram queue for DTLS).  Both stacks draw their randomness from seeded streams, so a case replays
+ * exactly.  MatrixSSL is driven like the reference applications: read at most `chunk` bytes, call
+ * matrixSslReceivedData, flush the output whenever it answers MATRIXSSL_REQUEST_SEND.
  *
  * Oracle, for every configuration that both stacks support:
  *   - both complete the handshake;
  *   - both report the same version, cipher suite, (TLS 1.3) group, extended-master-secret use,
  *     and these equal what the configuration pins;
  *   - tagged payloads of every planned size round-trip bit-exact in both directions, also when
- *     written as many tiny records and when the ciphertext is delivered in odd-sized chunks;
+ *     written as many tiny records and when the ciphertext is delivered in odd-sized reads;
  *   - after a clean shutdown the next connection is resumed on BOTH stacks' view whenever both
  *     hold the state, and data still round-trips.
  * A configuration that one stack cannot do at all (suite unknown to OpenSSL, key file not loadable,
- * statically known MatrixSSL feature gap) is counted as not_mutually_supported_<why>, never as pass
- * or violation.  OpenSSL policy knobs are opened (security level 0, exact protocol version,
- * SSL_OP_LEGACY_SERVER_CONNECT) so that only protocol conformance is judged. */
+ * statically known feature gap, see static_gap()) is counted as not_mutually_supported_<why>, never
+ * as pass or violation.  OpenSSL policy knobs are opened (security level 0, exact protocol version,
+ * SSL_OP_LEGACY_SERVER_CONNECT, no wall-clock DTLS retransmission) so that only protocol conformance
+ * is judged.
+ *
+ * Violation key: c10:<clause>:<version>:<role>:<family>[+<dimension>...] where the dimensions are the
+ * non-default settings that are NEEDED for the failure (found by re-running the case with one
+ * dimension at a time reset to its default) - the key names the cause, not the accidental rest.
+ * Debug aids for --case: C10_HEX=1 dumps handshake records, C10_FEEDTRACE=1 traces every read. */
 #include "mx.h"
 #include <openssl/ssl.h>
 #include <openssl/err.h>
@@ -299,7 +308,7 @@ static void feed_like_an_app(conn_t *k, const unsigned char *d, int len, int chu
         int rc = matrixSslReceivedData(e->ssl, n, &pt, &ptl);
         rc = mx_process_rc(e, rc, pt, ptl);
         if (getenv("C10_FEEDTRACE")) fprintf(stderr, "        fed %d (off %d/%d) rc=%d hsState=%d inlen=%d outlen=%d bFlags=%x flags=%x\n", n, off, len, rc, e->ssl->hsState, e->ssl->inlen, e->ssl->outlen, (unsigned) e->ssl->bFlags, (unsigned) e->ssl->flags);
-        if (rc == MATRIXSSL_REQUEST_SEND && !getenv("C10_NOFLUSH")) move_m2o(k);
+        if (rc == MATRIXSSL_REQUEST_SEND) move_m2o(k);
     }
 }
 /* OpenSSL -> MatrixSSL; the TLS byte stream is re-chunked (cfg.chunk), DTLS datagrams stay whole */
@@ -437,6 +446,8 @@ static SSL_CTX *o_ctx_new(const cfg_t *c, const char **why)
         }
     }
     if (peer != CT_NONE) {
+        /* real chain verification, at the harness' virtual time (the sample certificates expire in 2027) */
+        X509_VERIFY_PARAM_set_time(SSL_CTX_get0_param(ctx), (time_t) mx_now);
         if (SSL_CTX_load_verify_locations(ctx, certs[peer].ca, NULL) != 1) { *why = "openssl_cannot_load_ca"; SSL_CTX_free(ctx); return NULL; }
         SSL_CTX_set_verify(ctx, server ? (SSL_VERIFY_PEER | SSL_VERIFY_FAIL_IF_NO_PEER_CERT) : SSL_VERIFY_PEER, NULL);
         if (server) SSL_CTX_set_client_CA_list(ctx, SSL_load_client_CA_file(certs[peer].ca));
@@ -702,6 +713,10 @@ static const char *static_gap(const cfg_t *c)
         /* the <= 1.2 ClientHello never lists x25519 and the server never picks it (no ecFlags bit) */
         if (suite_is_ecdhe(s) && c->g1 == 29) return "mx_lacks_x25519_below_tls13";
     }
+    /* tlsSelectKeys.c chooseFromLoadedKeys()/peerSupportsSigAlg() only know PKCS#1 and ECDSA certificate signatures: a client
+       identity whose chain is signed with RSASSA-PSS is never selected and an empty Certificate is sent (legal, RFC 8446 4.4.2.3);
+       the same key works as a TLS 1.3 server credential and OpenSSL's PSS client certificate is accepted by a MatrixSSL server */
+    if (s->tls13 && c->role == R_MXC && c->cauth == CT_PSS) return "mx_client_never_selects_rsa_pss_signed_id";
     return NULL;
 }
 
